@@ -50,6 +50,10 @@ import (
 //   self <buffers>        Router.Send of these values to the router's own identity
 //   sendnil <tcp|local>   Router.Send of a valid message followed by a nil one
 
+//   lloop <buffers> <n>   the buffers are put as they are onto an in-memory connection (hook
+//                         LocalConn.VerifSendRaw) whose other end is in a real Router's receive loop; once
+//                         they are consumed the sender closes the connection and calls Send n more times
+
 // c03Unenc is registered, but the protobuf encoder refuses its values (a channel).
 type c03Unenc struct{ C chan int }
 
@@ -237,6 +241,161 @@ func (st *c03state) self(bufs [][]byte) string {
 		return res + " -"
 	}
 	return res + " " + strings.Join(ev, ",")
+}
+
+func (st *c03state) lloop(frames [][]byte, after int) string {
+	if err := st.loopRouter(); err != nil {
+		st.cs.Fail("harness", err.Error())
+		return "harness-error"
+	}
+	st.log.mu.Lock()
+	st.log.l = nil
+	st.log.mu.Unlock()
+	lm := network.NewLocalManager()
+	addrA, addrB := network.NewLocalAddress("127.0.0.1:2201"), network.NewLocalAddress("127.0.0.1:2202")
+	ll, err := network.NewLocalListenerWithManager(lm, addrB, fix.Suite)
+	if err != nil {
+		st.cs.Fail("harness", err.Error())
+		return "harness-error"
+	}
+	incoming := make(chan network.Conn, 1)
+	go ll.Listen(func(c network.Conn) { incoming <- c })
+	for i := 0; i < 2000 && !ll.Listening(); i++ {
+		time.Sleep(time.Millisecond)
+	}
+	defer ll.Stop()
+	out, err := network.NewLocalConnWithManager(lm, addrA, addrB, fix.Suite)
+	if err != nil {
+		st.cs.Fail("harness", err.Error())
+		return "harness-error"
+	}
+	var in network.Conn
+	select {
+	case in = <-incoming:
+	case <-time.After(3 * time.Second):
+		st.cs.Fail("harness", "the in-memory listener did not hand over the connection")
+		return "harness-error"
+	}
+	rec := &c03rec{Conn: in, log: st.log, closed: make(chan struct{}), limit: network.Size(st.max)}
+	st.host.mu.Lock()
+	fn := st.host.fn
+	st.host.mu.Unlock()
+	go fn(rec)
+	count := func() int {
+		st.log.mu.Lock()
+		defer st.log.mu.Unlock()
+		n := 0
+		for _, e := range st.log.l {
+			if e.kind == "ok" || e.kind == "err" {
+				n++
+			}
+		}
+		return n
+	}
+	if _, err := out.Send(st.peer); err != nil {
+		st.cs.Fail("harness", "identity exchange on the in-memory connection: "+err.Error())
+		return "harness-error"
+	}
+	for _, f := range frames {
+		if err := out.VerifSendRaw(f); err != nil {
+			st.cs.Fail("send-error", "putting a buffer onto a live in-memory connection: "+err.Error())
+		}
+	}
+	// closing drops what the transport has not handed over yet: wait until everything is consumed
+	for i := 0; i < 6000 && count() < len(frames)+1; i++ {
+		time.Sleep(500 * time.Microsecond)
+	}
+	time.Sleep(200 * time.Microsecond)
+	out.Close()
+	hang := false
+	select {
+	case <-rec.closed:
+	case <-time.After(5 * time.Second):
+		hang = true
+	}
+	var afters []string
+	for i := 0; i < after; i++ {
+		_, err := out.Send(&c03Ints{I64: int64(i)})
+		cl := c03class(err)
+		if cl == "ok" {
+			st.cs.Fail("message-lost", "Send on a closed in-memory connection reported success")
+		}
+		afters = append(afters, cl)
+	}
+	st.log.mu.Lock()
+	l := append([]c03entry{}, st.log.l...)
+	st.log.mu.Unlock()
+	var ev, dels, want []string
+	end := ""
+	if len(l) > 0 && l[0].kind == "ok" {
+		l = l[1:]
+	} else {
+		ev = append(ev, "identity-refused")
+	}
+	for i := 0; i < len(l); i++ {
+		e := l[i]
+		next := ""
+		if i+1 < len(l) {
+			next = l[i+1].kind
+		}
+		switch e.kind {
+		case "ok":
+			if next == "disp" {
+				hx := c03hexOf(l[i+1].val)
+				ev = append(ev, "d:"+hx)
+				dels = append(dels, hx)
+				i++
+			} else if e.env != nil && st.procs != nil && !st.procs[e.env.MsgType] {
+				ev = append(ev, "np:"+c03hexOf(e.val))
+			} else {
+				ev = append(ev, "lost")
+				st.cs.Fail("received-not-dispatched", "a message came out of Receive and was not dispatched")
+			}
+		case "err":
+			if next == "close" {
+				ev = append(ev, "end:"+e.what)
+				end = e.what
+				i = len(l)
+			} else {
+				ev = append(ev, "x:"+e.what)
+			}
+		case "close":
+			ev = append(ev, "end:noerr")
+			end = "noerr"
+			i = len(l)
+		}
+	}
+	if hang {
+		ev = append(ev, "hang")
+		st.cs.Fail("hang", "the receive loop did not end within 5 s after the in-memory connection was closed")
+	}
+	// the property's own oracle: every decodable buffer (of a type with a processor) is delivered
+	// equal, in order; the others cost nothing but themselves; the close ends the loop
+	for _, f := range frames {
+		if v, cl := c03unmarshal(f); cl == "ok" && st.hasProc(f) {
+			if b, err := network.Marshal(v); err == nil && bytes.Equal(b, f) {
+				want = append(want, h.Hex(f))
+			} else {
+				want = append(want, "noncanonical")
+			}
+		}
+	}
+	same := len(dels) == len(want)
+	for i := 0; same && i < len(want); i++ {
+		same = dels[i] == want[i] || want[i] == "noncanonical"
+	}
+	if !same || end != "closed" {
+		st.cs.Fail("delivery", fmt.Sprintf("in-memory connection: decodable buffers %v, delivered %v, end %q", want, dels, end))
+	}
+	st.tag(fmt.Sprintf("lloop:%s:d%s:x%s", end, c03bucket(len(dels)), c03bucket(len(ev)-len(dels)-1)))
+	a := "-"
+	if len(afters) > 0 {
+		a = strings.Join(afters, ",")
+	}
+	if len(ev) == 0 {
+		return "- after:" + a
+	}
+	return strings.Join(ev, ",") + " after:" + a
 }
 
 func (st *c03state) sendnil(tr string) string {
@@ -852,6 +1011,13 @@ func (st *c03state) r4op(tk []string) (string, bool) {
 			return "bad-op", true
 		}
 		return st.self(bufs), true
+	case len(tk) == 4 && tk[1] == "lloop":
+		fr, ok := c03hexList(tk[2])
+		n, err := strconv.Atoi(tk[3])
+		if !ok || err != nil || n < 0 || n > 16 {
+			return "bad-op", true
+		}
+		return st.lloop(fr, n), true
 	case len(tk) == 3 && tk[1] == "sendnil":
 		return st.sendnil(tk[2]), true
 	case len(tk) == 3 && tk[1] == "csend":
@@ -1045,6 +1211,37 @@ func c03genR4(g *c03g, emit func(class string, ops ...string)) {
 			"c03 cfg 4096 "+reg+" -",
 			"c03 procs "+c03joinHex(sub),
 			fmt.Sprintf("c03 loop %s - %s", c03joinHex(frames), h.Ints(g.chunks(g.stream(frames, nil)))))
+	}
+	// ---- the in-memory transport fed with valid, refused and arbitrary buffers; sends after the close
+	for i := 0; i < c.Pick(250, 4000); i++ {
+		var frames [][]byte
+		for k := r.Intn(7); k > 0; k-- {
+			b, _ := g.valueBuf()
+			switch r.Intn(6) {
+			case 0:
+				b = g.mutate(b)
+			case 1:
+				b = c03bytes(r, r.Intn(16))
+			case 2:
+				b = append(c03bytes(r, 16), c03bytes(r, r.Intn(10))...)
+			}
+			frames = append(frames, b)
+		}
+		bad, usable := g.table(frames)
+		if !usable {
+			continue
+		}
+		ops := []string{fmt.Sprintf("c03 cfg 4096 %s %s", reg, c03joinHex(bad))}
+		if r.Intn(4) == 0 {
+			var sub [][]byte
+			for _, t := range c03types {
+				if r.Intn(3) > 0 {
+					sub = append(sub, append([]byte{}, t[:]...))
+				}
+			}
+			ops = append(ops, "c03 procs "+c03joinHex(sub))
+		}
+		emit("lloop", append(ops, fmt.Sprintf("c03 lloop %s %d", c03joinHex(frames), r.Intn(3)))...)
 	}
 	for i := 0; i < c.Pick(40, 400); i++ {
 		tr := []string{"tcp", "local"}[r.Intn(2)]
